@@ -68,7 +68,10 @@ def build(repo="/repo", san=False, quiet=True):
     if os.environ.get("VERIF_DEVCODE"):
         flags.append("-DDEVELOPMENT_CODE")
     if san:
-        flags += ["-g", "-fsanitize=address,undefined",
+        # AddressSanitizer plus the UBSan checks that are not pervasive, benign idioms of
+        # this code base (left shifts of negative handles in terminal.h, unaligned long
+        # loads of edge values in packed node storage)
+        flags += ["-g", "-fsanitize=address,undefined", "-fno-sanitize=shift,alignment",
                   "-fno-sanitize-recover=undefined", "-fno-omit-frame-pointer"]
     hd = headers_digest(repo)
     fl = " ".join(flags)
